@@ -51,6 +51,15 @@ def build_pkg(case):
     return Package([Interp().run(p) for p in case["modules"]], [build_extension(e) for e in case["extensions"]])
 
 
+def _is_value_error(name):
+    import builtins
+
+    import pyzstd
+
+    cls = getattr(builtins, name, None) or getattr(pyzstd, name, None) or getattr(json, name, None)
+    return isinstance(cls, type) and issubclass(cls, ValueError)
+
+
 def check_roundtrip(ctx, case, stratum="roundtrip"):
     import pyzstd
     from hugr.envelope import EnvelopeConfig, EnvelopeFormat
@@ -95,6 +104,52 @@ def check_roundtrip(ctx, case, stratum="roundtrip"):
         if back != want:
             p = diff(want, back)[0]
             bad("roundtrip-bytes", [z, p[0]], p[1], p[2])
+        # hostile interleaving: decodes that FAIL (envelope cut inside the header, inside the payload, one payload byte
+        # flipped, another magic number) must leave nothing behind -- the valid envelope still decodes to the same
+        # package right after each of them (what a malformed payload does is not judged, only what follows)
+        cuts = sorted({3, 9, 10, 11, 10 + len(payload) // 2, len(raw) - 1})
+        hostile = [raw[:c] for c in cuts if c < len(raw)]
+        if len(payload) > 4:
+            flipped = bytearray(raw)
+            flipped[10 + len(payload) // 2] ^= 0x5A
+            hostile.append(bytes(flipped))
+        hostile.append(b"XUGRiHJv" + raw[8:])
+        for hb in hostile:
+            ctx.count("monitor:decode-after-failed-decode")
+            try:
+                Package.from_bytes(hb)
+                outcome = "decoded"
+            except Exception as e:  # noqa: BLE001
+                outcome = type(e).__name__
+            if len(hb) < 10 or hb[:8] != MAGIC:
+                ctx.count("monitor:malformed-bytes")
+                if outcome == "decoded" or outcome not in ("ValueError",) and not _is_value_error(outcome):
+                    bad("malformed-input-not-refused-with-ValueError", [z, len(hb), hb[:8].hex()], "ValueError", outcome)
+            try:
+                again = pkg_docs(Package.from_bytes(raw))
+            except Exception as e:  # noqa: BLE001
+                bad("decode-after-failed-decode", [z, len(hb)], "the valid envelope still decodes",
+                    f"{type(e).__name__}: {str(e)[:150]}")
+                continue
+            if again != want:
+                p = diff(want, again)[0]
+                bad("decode-after-failed-decode", [z, len(hb), p[0]], p[1], p[2])
+        if z is None:
+            # the same refusals through the text entry point
+            for hs in (raw[:3].decode(), raw[:9].decode(), "XUGRiHJv" + raw[8:].decode(),
+                       raw[:8].decode("latin-1") + "\x07" + raw[9:].decode()):
+                ctx.count("monitor:malformed-str")
+                try:
+                    Package.from_str(hs)
+                    outcome = "decoded"
+                except ValueError:
+                    outcome = "ValueError"
+                except Exception as e:  # noqa: BLE001
+                    outcome = type(e).__name__
+                if outcome != "ValueError":
+                    bad("malformed-text-not-refused-with-ValueError", hs[:12], "ValueError", outcome)
+                if pkg_docs(Package.from_str(raw.decode("utf-8"))) != want:
+                    bad("decode-after-failed-decode", ["str", hs[:12]], "the valid envelope still decodes", "differs")
         if z is None:
             ctx.count("monitor:roundtrip-str")
             s = pkg.to_str(cfg)
@@ -107,6 +162,19 @@ def check_roundtrip(ctx, case, stratum="roundtrip"):
     # defaults and the two ready-made configurations
     if pkg_docs(Package.from_bytes(pkg.to_bytes())) != want or pkg_docs(Package.from_str(pkg.to_str())) != want:
         bad("roundtrip-default-config", "defaults", "equal", "different")
+    # the header of what the defaults write, judged against the payload that follows it (not against a config object)
+    ctx.count("monitor:default-config-header")
+    for how, raw in (("to_bytes()", pkg.to_bytes()), ("to_str()", pkg.to_str().encode("utf-8"))):
+        problem = None
+        if raw[:8] != MAGIC or (raw[9] >> 6) != 0b01 or raw[8] not in (1, 2, 63):
+            problem = "magic / format byte / bits 7,6"
+        else:
+            try:
+                json.loads(pyzstd.decompress(raw[10:]) if raw[9] & 1 else raw[10:])
+            except Exception:  # noqa: BLE001
+                problem = "bit 0 does not tell whether the payload is compressed"
+        if problem:
+            bad("header-of-default-config", how, "a header describing the payload", [problem, raw[:10].hex()])
     for nm in ("TEXT", "BINARY"):
         cfg = getattr(EnvelopeConfig, nm)
         ctx.count("monitor:ready-made-config")
